@@ -119,8 +119,11 @@ theorem render_parse_print_segs {R : Type} [RealLike R] (cx : RCtx R) (sx : Spec
     expandList_segs cx sx same segs _ (by omega)]
 
 /-- stage 4 of `RenderParsePrint`: block templates — any sequence of segment runs (text, `{var:}`,
-`{raw:}`, `{math:}` as in stage 3) and `<if case="e">segments</if>` blocks (`e` free of `{ < } "`:
-an expression over literals with any operator but `<`-based ones; the body any covered segments).
+`{raw:}`, `{math:}` as in stage 3), `<if case="e">segments</if>` and
+`<if case="e">segments<else />segments</if>` blocks (`e` free of `{ < } "`: an expression over
+literals with any operator but `<`-based ones; the bodies any covered segments; for the two-branch
+form `caseOk`: `e` scans to a non-empty list — for a text that is not an expression the code prints
+nothing at all while the reference goes on to the `else` part).
 The parse half gives the exact tag list with one `If` tag per block (`parse_blks`); the `If` tag's
 case list is the scan of `e` in place, its decision equals the reference `isTrue (evalText e)`
 (`case_hit`, through the relocation theorems); hence, for every value, number reader, formatter
@@ -129,6 +132,7 @@ theorem render_parse_print_blocks {R : Type} [RealLike R] (cx : RCtx R) (sx : Sp
     (cfg : ScanCfg R) (bs : List Blk) (hg : cx.guardIndexRead = true) (same : SameCtx cx sx)
     (hrn : cfg.readNum = cx.readNum)
     (hc : cx.content = printList (blksTpl bs)) (hok : ∀ b ∈ bs, b.ok) (hpath : ∀ b ∈ bs, b.pathOk)
+    (hcase : ∀ b ∈ bs, b.caseOk cfg.readNum)
     (hn : cx.content.length + 16 < 4294967296) (fuel fuel' : Nat) :
     (parse cfg cx.content).bind (fun tags => renderTop cx tags (rneed bs + rcost bs + fuel)) =
       .ok (expand sx (blksTpl bs) (eneed bs + fuel')) := by
@@ -140,7 +144,7 @@ theorem render_parse_print_blocks {R : Type} [RealLike R] (cx : RCtx R) (sx : Sp
   rw [hp]
   simp only [Except.bind]
   rw [show rneed bs + rcost bs + fuel = (rneed bs + fuel) + rcost bs by omega,
-    renderTop_blks cx cfg hg hrn bs hc hok hpath _ (by omega), expand, same.eq,
+    renderTop_blks cx cfg hg hrn bs hc hok hpath hcase _ (by omega), expand, same.eq,
     expandList_blks cx bs _ (by omega)]
 
 /-- non-vacuity: `a<if case="1 > 0">{var:x}</if>` is such a template -/
